@@ -389,6 +389,13 @@ fn generate(cli: &Cli) -> Vec<Case> {
 }
 
 pub fn run_prop(cli: &Cli) -> i32 {
+    run_filtered(cli, None)
+}
+
+/// `only`: keep only violations whose signature starts with one of these prefixes (used by
+/// ./check C14 for the clause "frames longer than the configured maximum are refused" in every
+/// protocol state, before and after encryption).
+pub fn run_filtered(cli: &Cli, only: Option<&[&str]>) -> i32 {
     let mut report = Report::new(
         cli,
         "exploration",
@@ -466,5 +473,8 @@ pub fn run_prop(cli: &Cli) -> i32 {
     report.set("listen_results", json!(kinds));
     report.set("largest_single_allocation_observed", json!(max_alloc));
     let _ = std::fs::remove_dir_all(&progress_dir);
+    if let Some(prefixes) = only {
+        report.retain_violations(|sig| prefixes.iter().any(|p| sig.starts_with(p)));
+    }
     report.finish()
 }
